@@ -78,9 +78,17 @@ def run(tier, chk):
         n, n1, rounds, order, sim_n = run_role(tier, chk, wd, role)
         total += n
         parts.append(f"{role}: {rounds} check/register rounds per driver poll ({order}), {n1} exhaustive single-task schedules")
+    # the datagram reader over real Quinn: asked after the driver has reported h3's own error, it reports that same error (C05D_Trace)
+    dg = common.gen_scenarios(chk, wd, "C05D_Gen", workers=2, label="dgen", cfg_text="SPECIFICATION Spec\nINVARIANT Emit\nCHECK_DEADLOCK FALSE\n")
+    common.run_sim(chk, wd, dg, "C05D_Trace", label="quinn", shards=2, runner="quinn", sig_of=lambda s, t, w: "c05:datagram-reader-reports-another-error")
+    total += len(dg)
     if tier != "quick":
         # sequential executions too: in every scenario family of the simulator-based checks all reported connection errors agree and match the close code
         common.run_mc(chk, wd, "H3Conn", must_cover=("Detect", "PeerClose", "Handle", "Report", "SendGoaway", "RecvGoaway"), label="h3conn-mc")
+        # unbounded (any codes, any identifiers): the invariant behind OneError / CloseIsTheError / NoCloseOnRemote is inductive
+        common.run_apalache(chk, wd, "H3ConnInd", [("Init", "IndInv", 0, "initiation"), ("IndInit", "IndInv", 1, "consecution"),
+                                                    ("IndInit", "Safety", 0, "IndInv implies OneError, CloseIsTheError, NoCloseOnRemote"),
+                                                    ("IndInit", "StepProps", 1, "action properties CellStable and GoawayMonotone")])
         corpus.cross(chk, "C05", "H3Conn_Trace", env_extra={"INV": "ERR"}, sig_of=lambda s, t, w: "c05:corpus:different-errors-or-close-code")
     chk.exhaustive = False
     chk.distinct_nontrivial = total
